@@ -13,7 +13,7 @@ for name in sorted(os.listdir('/verif/seeded')):
     p = '/verif/seeded/%s/meta.json' % name
     meta = json.load(open(p))
     r = res.get(name, {})
-    caught = dict((c, t) for c, (t, e) in r.items() if e == 1)
+    caught = dict((c, t) for c, (t, e) in r.items() if e == 1) if r else dict(meta.get('detected_by', {}))
     missed = [c for c, (t, e) in r.items() if e != 1]
     if write and r:
         meta['detected_by'] = caught
